@@ -77,6 +77,7 @@ class H:
         twin: bool = True,
         grid: int = 200,
         path_timeout: Optional[int] = None,
+        py_flags: Sequence[str] = (),
     ) -> None:
         self.name = name
         self.fn = fn
@@ -89,6 +90,8 @@ class H:
         self.twin = twin
         self.grid = grid
         self.path_timeout = path_timeout
+        #: interpreter flags for the processes that execute this harness (e.g. ["-O"])
+        self.py_flags = list(py_flags)
 
     def bounds_text(self) -> List[str]:
         return [p.describe() for p in self.params] + ["pre: " + e for e in self.extra_pre]
